@@ -3,18 +3,18 @@
 (* 3 processes x 2 updates each, 4 abstract pixels, 2 tile positions; three      *)
 (* region / position patterns (private-then-shared regions on one tile; two      *)
 (* tiles with an empty contribution, pre-existing content and mixed format       *)
-(* arguments; every update covering the whole tile).  checks/c10.py generates    *)
+(* arguments and PyramidIO default formats; every update covering the whole tile).  checks/c10.py generates    *)
 (* the same kind of module with its configuration families.                      *)
 EXTENDS TileLock
 MCCfgs == {
   [id |-> 1, nupd |-> <<2, 2, 2>>, pos |-> <<<<1, 1>>, <<1, 1>>, <<1, 1>>>>,
    reg |-> << << <<1>>, <<1, 4>> >>, << <<2>>, <<2, 4>> >>, << <<3>>, <<3, 4>> >> >>,
-   init |-> << <<>>, <<>> >>, keymode |-> "pos", fmt |-> <<0, 0, 0>>, env |-> <<0, 0, 0>>],
+   init |-> << <<>>, <<>> >>, keymode |-> "pos", fmt |-> <<0, 0, 0>>, env |-> <<0, 0, 0>>, dflt |-> <<0, 0, 0>>, parent |-> 0],
   [id |-> 2, nupd |-> <<2, 2, 2>>, pos |-> <<<<1, 2>>, <<2, 1>>, <<1, 1>>>>,
    reg |-> << << <<1, 2>>, <<1, 4>> >>, << <<2, 3>>, <<>> >>, << <<3>>, <<1, 2, 3, 4>> >> >>,
-   init |-> << <<4>>, <<>> >>, keymode |-> "pos", fmt |-> <<0, 1, 0>>, env |-> <<0, 0, 0>>],
+   init |-> << <<4>>, <<>> >>, keymode |-> "pos", fmt |-> <<0, 1, 0>>, env |-> <<0, 0, 0>>, dflt |-> <<0, 2, 0>>, parent |-> 0],
   [id |-> 3, nupd |-> <<2, 2, 2>>, pos |-> <<<<1, 1>>, <<1, 1>>, <<1, 1>>>>,
    reg |-> << << <<1, 2, 3, 4>>, <<1, 2, 3, 4>> >>, << <<1, 2, 3, 4>>, <<1, 2, 3, 4>> >>, << <<1, 2, 3, 4>>, <<1, 2, 3, 4>> >> >>,
-   init |-> << <<1, 2>>, <<>> >>, keymode |-> "pos", fmt |-> <<0, 0, 0>>, env |-> <<0, 0, 0>>]
+   init |-> << <<1, 2>>, <<>> >>, keymode |-> "pos", fmt |-> <<0, 0, 0>>, env |-> <<0, 0, 0>>, dflt |-> <<0, 0, 0>>, parent |-> 0]
 }
 =============================================================================
